@@ -1062,7 +1062,13 @@ def register_link_roots(R):
     def g_link(E, v):
         G = v["G"]
         rt, dp, par = G.fields["rt"].arr, G.fields["dp"].arr, G.fields["par"].arr
-        i = [x_ for k_, x_ in v.items() if isinstance(x_, Sym) and x_.kind == "int" and not k_.startswith("_k")]
+        import ast as _ast
+
+        # the row being linked is the first component of the loop target (looked up in the carrier's AST: renaming it is harmless)
+        fn_node = E.cur_frame.func.node if E.cur_frame is not None and E.cur_frame.func is not None else None
+        tgt = [n_.target.elts[0].id for n_ in _ast.walk(fn_node) if isinstance(n_, _ast.For) and isinstance(n_.target, _ast.Tuple) and n_.target.elts
+               and isinstance(n_.target.elts[0], _ast.Name)] if fn_node is not None else []
+        i = [v[t_] for t_ in tgt[:1] if isinstance(v.get(t_), Sym)]
         dis = by_type(v, InfMasked18, "masked distance array")
         if len(i) != 1 or dis.idx is None:
             raise KeyError("link_roots_to_nearest_: cannot identify the root being linked / the chosen row")
